@@ -68,7 +68,72 @@ def boundary2_case(offset, atol=0.05):
     return dict(structure=S, pattern=P, cell=cell, planted=[], poses=[])
 
 
+def shared_first_atom_case(seed):
+    """One C with two (three) N neighbours at the pattern distance: the occurrences share their first atom, and the neighbour with the
+    higher index comes first in coordinate order -- results must stay aligned (k-th index tuple <-> k-th positions <-> k-th rotation)."""
+    from mofun import Atoms
+    rnd = random.Random(seed)
+    cell = geo.CELLS['ortho']
+    c = np.array([6.0, 7.0, 8.0]) + np.array([rnd.uniform(-1, 1) for _ in range(3)])
+    dirs = [np.array([1.0, 0.2, 0.1]), np.array([-0.7, 0.6, 0.3]), np.array([-0.1, -0.9, 0.4])]
+    ns = [c + 1.2 * d / np.linalg.norm(d) for d in dirs]
+    order = [0, 1, 2]
+    rnd.shuffle(order)
+    # far-away spectators first and last so that atom indices and coordinate order are unrelated
+    els = ['O', 'C'] + ['N'] * 3 + ['O']
+    pts = [np.array([15.0, 2.0, 3.0]), c] + [ns[i] for i in order] + [np.array([2.0, 17.0, 20.0])]
+    with quiet():
+        S = Atoms(elements=els, positions=np.array(pts), cell=cell)
+        P = Atoms(elements=['C', 'N'], positions=np.array([[0., 0, 0], [1.2, 0, 0]]))
+    return dict(structure=S, pattern=P, cell=cell, planted=[(1, 2), (1, 3), (1, 4)], poses=[])
+
+
+def half_cell_apex_case(seed):
+    """Chiral four-atom pattern whose apex stands half a cell edge above the base plane, written along the cell's c axis: the mirror image of
+    the copy through its base plane consists of the base atoms and a periodic image of the same apex atom.  Only the proper copy may be
+    reported (cell widths >= 9 > pattern diameter 6.5 + 2 atol)."""
+    from mofun import Atoms
+    rnd = random.Random(seed)
+    cell = geo.SMALL_CELLS['small'] * np.array([[1.0], [1.0], [0.9]])      # c = 9.0
+    coords = np.array([[0., 0, 0], [6.5, 0, 0], [3.2, 5.0, 0], [3.2, 1.5, 4.5]])     # axis C-N, orientation atom O: the apex F is neither
+    off = np.array([rnd.uniform(1, 7), rnd.uniform(1, 7), rnd.uniform(0.5, 8.5)])
+    ang = rnd.uniform(0, 2 * np.pi)
+    rz = np.array([[np.cos(ang), -np.sin(ang), 0], [np.sin(ang), np.cos(ang), 0], [0, 0, 1.0]])
+    pts = coords.dot(rz.T) + off
+    with quiet():
+        S = Atoms(elements=list('CNOF'), positions=np.array([geo.wrap(cell, p) for p in pts]), cell=cell)
+        P = Atoms(elements=list('CNOF'), positions=coords)
+    return dict(structure=S, pattern=P, cell=cell, planted=[(0, 1, 2, 3)], poses=[])
+
+
+def methane_case(seed):
+    """CH4-like centre with four equivalent neighbours; the pattern is the centre with three of them: four distinct occurrences that pairwise
+    share the centre and two neighbours, each with several valid orderings (interleaved in discovery order)."""
+    from mofun import Atoms
+    rnd = random.Random(seed)
+    cell = geo.CELLS['tri+']
+    t = np.array([[1, 1, 1], [1, -1, -1], [-1, 1, -1], [-1, -1, 1]], dtype=float) * (1.09 / np.sqrt(3))
+    rot = geo.rotations(rnd, 1, include_axis=False)[0]
+    c = np.array([rnd.uniform(2, 15), rnd.uniform(2, 15), rnd.uniform(2, 15)])
+    pts = [c] + [c + rot.apply(v) for v in t]
+    order = [1, 2, 3, 4]
+    rnd.shuffle(order)
+    els = ['O', 'C'] + ['H'] * 4
+    P = [np.array([1.0, 18.0, 20.0])] + [pts[0]] + [pts[i] for i in order]
+    with quiet():
+        S = Atoms(elements=els, positions=np.array([geo.wrap(cell, p) for p in P]), cell=cell)
+        pat = Atoms(elements=list('CHHH'), positions=np.array([[0., 0, 0]] + [list(v) for v in t[:3]]))
+    import itertools as _it
+    return dict(structure=S, pattern=pat, cell=cell, planted=[(1,) + tuple(2 + i for i in trio) for trio in _it.combinations(range(4), 3)], poses=[])
+
+
 def make_case(spec):
+    if spec.get('special') == 'methane':
+        return methane_case(spec['seed'])
+    if spec.get('special') == 'half-cell-apex':
+        return half_cell_apex_case(spec['seed'])
+    if spec.get('special') == 'shared-first-atom':
+        return shared_first_atom_case(spec['seed'])
     if spec.get('special') == 'boundary2':
         return boundary2_case(spec['offset'], spec.get('atol', 0.05))
     if spec.get('special') == 'through-faces':
@@ -130,6 +195,12 @@ def specs(tier, seed):
             for s, atol in enumerate((0.01, 0.1) if tier == 'quick' else (0.004, 0.01, 0.02, 0.1, 0.15)):
                 out.append(dict(cell=cell, pattern=pat, copies=2, seed=seed * 1000 + 700 + s + ci, noise=0.16 * atol, decoys=2, mirror=1 if pat == 'chiral4' else 0,
                                 near_miss=1, rng=s, atol=atol))
+    for s in range(3 if tier == 'quick' else 10):
+        out.append(dict(special='shared-first-atom', seed=seed * 1000 + 840 + s, rng=s))
+    for s in range(6 if tier == 'quick' else 24):
+        out.append(dict(special='half-cell-apex', seed=seed * 1000 + 860 + s % 3, rng=s))
+    for s in range(3 if tier == 'quick' else 10):
+        out.append(dict(special='methane', seed=seed * 1000 + 880 + s, rng=s))
     # a pattern spanning more than half a cell edge (cell still wider than the pattern + 2 atol): images must be taken per atom
     for cell in ('small', 'small-tri'):
         for s in range(3 if tier == 'quick' else 12):
